@@ -261,6 +261,27 @@ def F39():
     return ok1 and ok2
 
 
+def F40():
+    """C14: a resource calendar `a / b` whose divisor calendar b has no capacity on a day (weekend of the default calendar):
+    get_available_units divides by zero and both calc methods end in ZeroDivisionError instead of a schedule or a RuntimeError
+    diagnosis (reported by a round-8 change author)"""
+    from pjplan import DEFAULT_CALENDAR
+    res = []
+    for fwd in (True, False):
+        w = WBS()
+        w // Task(1, name='a', estimate=16, resource='r')
+        r = Resource('r', calendar=DEFAULT_CALENDAR / DEFAULT_CALENDAR)
+        sch = ForwardScheduler(start=datetime(2030, 1, 11), resources=[r]) if fwd else BackwardScheduler(end=datetime(2030, 1, 14), resources=[r])
+        try:
+            sch.calc(w)
+            res.append(True)
+        except RuntimeError:
+            res.append(True)
+        except Exception:
+            res.append(False)
+    return all(res)
+
+
 def F38():
     """C14 / C06: an outside task linked between two members (B >> E >> T, E outside the WBS): the passes followed E back to
     the caller's ORIGINAL B, scheduled it (input mutated) and recorded its id in the memo; the clone of B was skipped, kept
@@ -540,7 +561,7 @@ def F34c():
 
 
 ALL = [F1, F2, F3, F4, F35, F5, F6, F7, F8, F9, F10, F36, F37, F11, F11b, F11c, F13, F14, F14b, F15, F16, F17, F19, F20, F21, F22, F23, F24,
-       F25, F26, F27, F28, F30, F33, F34, F34b, F34c, F38, F39]
+       F25, F26, F27, F28, F30, F33, F34, F34b, F34c, F38, F39, F40]
 
 if __name__ == '__main__':
     sel = set(sys.argv[1:])
